@@ -118,17 +118,17 @@ theorem keysOf_split_of_locate {tag k : String} {a b : List Xml} {x : Xml}
 /-! ### closed form of `deleteLoop` -/
 
 theorem deleteLoop_closed (tag : String) (w : Warn) (ids : List Key) :
-    ∀ (cs : List Xml) (ws : List Warn), WfKids tag cs = true →
+    ∀ (cs : List Xml) (ws : List Warn),
       (∀ x ∈ keysOf tag cs, x.isSome = true) → (keysOf tag cs).Nodup →
       ∃ cs', deleteLoop tag w none cs ids ws = ⟨cs', ws ++ delWarns w ids (keysOf tag cs), none⟩ ∧
         keysOf tag cs' = (keysOf tag cs).filter (fun x => !ids.contains x) ∧
         cs'.filter (fun c => !(c.tag == tag)) = cs.filter (fun c => !(c.tag == tag)) := by
   induction ids with
-  | nil => intro cs ws _ _ _; exact ⟨cs, by simp [deleteLoop, delWarns], (List.filter_eq_self.mpr (by intros; rfl)).symm, rfl⟩
+  | nil => intro cs ws _ _; exact ⟨cs, by simp [deleteLoop, delWarns], (List.filter_eq_self.mpr (by intros; rfl)).symm, rfl⟩
   | cons id ids ih =>
-    intro cs ws hw hs hn
+    intro cs ws hs hn
     unfold deleteLoop
-    rw [findChildId_ok tag cs id hw]
+    rw [findChildId_ok tag cs id]
     cases hl : locate tag cs id with
     | none =>
       simp only
@@ -137,7 +137,7 @@ theorem deleteLoop_closed (tag : String) (w : Warn) (ids : List Key) :
         · intro hm; have := hs id hm; rw [h] at this; cases this
         · exact h
       have hnot : (id.isSome && (keysOf tag cs).contains id) = false := by simp [hni]
-      obtain ⟨cs', h1, h2, h3⟩ := ih cs (ws ++ [w]) hw hs hn
+      obtain ⟨cs', h1, h2, h3⟩ := ih cs (ws ++ [w]) hs hn
       refine ⟨cs', ?_, ?_, h3⟩
       · rw [h1]; simp only [delWarns, hnot]; simp
       · rw [h2]; apply List.filter_congr; intro x hx
@@ -168,7 +168,7 @@ theorem deleteLoop_closed (tag : String) (w : Warn) (ids : List Key) :
         rcases List.mem_append.mp hu with h | h
         · exact List.mem_append_left _ h
         · exact List.mem_append_right _ (List.mem_cons_of_mem _ h)
-      obtain ⟨cs', h1, h2, h3⟩ := ih (a ++ b) ws (WfKids_erase_split hw) hs' hn'
+      obtain ⟨cs', h1, h2, h3⟩ := ih (a ++ b) ws hs' hn'
       refine ⟨cs', ?_, ?_, ?_⟩
       · rw [h1, hk]
         have : ((some k : Key).isSome && (keysOf tag a ++ some k :: keysOf tag b).contains (some k)) = true := by
@@ -231,8 +231,7 @@ theorem replaceAt_split (a b xs : List Xml) (x : Xml) :
   unfold replaceAt
   rw [eraseIdx_split, insertMany_split]
 
-theorem insertBefore_ok (tag : String) (cs : List Xml) (id : Key) (xs : List Xml)
-    (hw : WfKids tag cs = true) :
+theorem insertBefore_ok (tag : String) (cs : List Xml) (id : Key) (xs : List Xml) :
     insertBefore tag none cs id xs =
       match id with
       | none => ⟨cs ++ xs, [], none⟩
@@ -241,7 +240,7 @@ theorem insertBefore_ok (tag : String) (cs : List Xml) (id : Key) (xs : List Xml
         | none => failWith cs [] .merge
         | some i => ⟨insertMany cs i xs, [], none⟩ := by
   unfold insertBefore
-  rw [findTarget_ok tag none cs id hw]
+  rw [findTarget_ok tag none cs id]
   cases id with
   | none => simp [insertMany_split_end]
   | some k =>
@@ -256,13 +255,13 @@ theorem inStoryAt_split (a b : List Xml) (s : Xml) (f : List Xml → Out) :
   unfold inStoryAt
   simp
 
-theorem inStory_ok (cs : List Xml) (sid : Key) (f : List Xml → Out) (hw : WfKids "story" cs = true) :
+theorem inStory_ok (cs : List Xml) (sid : Key) (f : List Xml → Out) :
     inStory none cs sid f =
       match locate "story" cs sid with
       | none => failWith cs [] .merge
       | some k => inStoryAt cs k f := by
   unfold inStory
-  rw [findRequired_ok "story" none cs sid hw]
+  rw [findRequired_ok "story" none cs sid]
   cases locate "story" cs sid <;> simp [raiseMerge]
 
 /-- an edit of the children that leaves everything that is not an `<item>` alone -/
